@@ -34,8 +34,19 @@ pub struct ProveDesc {
 pub enum Op {
     Construct { bits: usize, cap: usize, ext: usize },
     Prove(ProveDesc),
-    /// prove every member (healthy streams), optionally corrupt one proof, verify as one batch
-    Verify { members: Vec<ProveDesc>, action: usize, corrupt: Option<usize> },
+    /// prove every member (healthy streams), optionally corrupt one proof, verify as one batch;
+    /// corrupt_kind: 0 = a response scalar changed (well-formed but invalid), 1 = an undecodable
+    /// point in the first round (malformed), 2 = one extra round (malformed)
+    Verify {
+        members: Vec<ProveDesc>,
+        action: usize,
+        corrupt: Option<usize>,
+        #[serde(default)]
+        corrupt_kind: u8,
+    },
+    /// a failed proving attempt (witness that does not open the commitment) on a transcript object,
+    /// then the honest attempt on the SAME transcript object: the failed call must leave no trace
+    ProveAfterFailedAttempt(ProveDesc),
     /// to_bytes -> from_bytes -> to_bytes
     Codec(ProveDesc),
     /// drop this client's parameter clones (the pool keeps its own)
@@ -114,7 +125,38 @@ pub fn exec_op<G: Group>(env: &mut Env<G>, client: usize, op: &Op) -> String {
             format!("gens:{}", digest(&[&bytes]))
         },
         Op::Prove(d) => prove_desc(env, client, d).0,
-        Op::Verify { members, action, corrupt } => {
+        Op::ProveAfterFailedAttempt(d) => {
+            let params = env.params(client, d.cfg.bits, d.cfg.cap, d.cfg.ext);
+            let built = build_with_params::<G>(params.clone(), &d.cfg, &d.wit);
+            // a witness whose first blinding is off by one: does not open the commitment
+            let mut wrong = d.wit.clone();
+            wrong.blind_seed = wrong.blind_seed.wrapping_add(1);
+            wrong.zero_blind.clear();
+            let bad = build_with_params::<G>(params, &d.cfg, &wrong);
+            let mut t = d.ctx.transcript();
+            let mut r1 = crate::faultrng::FaultRng::new(RngMode::Healthy(1));
+            let first = guarded(|| G::prove(&mut t, &built.statement, &bad.witness, &mut r1));
+            let mut r2 = crate::faultrng::FaultRng::new(d.rng.clone());
+            let second = guarded(|| G::prove(&mut t, &built.statement, &built.witness, &mut r2));
+            let f = match first {
+                Ok(Ok(_)) => "first:ok",
+                Ok(Err(_)) => "first:err",
+                Err(_) => "first:caught",
+            };
+            // what the honest call gives on a transcript object no failed call has touched
+            let mut r3 = crate::faultrng::FaultRng::new(d.rng.clone());
+            let mut t_fresh = d.ctx.transcript();
+            let plain = guarded(|| G::prove(&mut t_fresh, &built.statement, &built.witness, &mut r3));
+            match second {
+                Ok(Ok(p)) => {
+                    let same = matches!(&plain, Ok(Ok(q)) if G::to_bytes(q) == G::to_bytes(&p));
+                    format!("{}|proof:{}|retry_equals_plain:{}", f, digest(&[&G::to_bytes(&p)]), same || f != "first:err")
+                },
+                Ok(Err(e)) => format!("{}|err:{}", f, err_class(&e)),
+                Err(c) => format!("{}|caught:{:?}", f, c),
+            }
+        },
+        Op::Verify { members, action, corrupt, corrupt_kind } => {
             let mut sts = Vec::new();
             let mut proofs = Vec::new();
             let mut ctxs: Vec<&Context> = Vec::new();
@@ -123,7 +165,17 @@ pub fn exec_op<G: Group>(env: &mut Env<G>, client: usize, op: &Op) -> String {
                     Some((s, mut p)) => {
                         if *corrupt == Some(i) {
                             if let Some(mut parts) = ProofParts::of::<G>(&p) {
-                                parts.r1[0] ^= 1;
+                                match *corrupt_kind {
+                                    1 if !parts.lr.is_empty() => {
+                                        let mut r = crate::simrng::SimRng::new(0xC18);
+                                        parts.lr[0].0 = G::undecodable(&mut r);
+                                    },
+                                    2 => {
+                                        let mut r = crate::simrng::SimRng::new(0xC18);
+                                        parts.lr.push((G::enc(&G::random_point(&mut r)), G::enc(&G::random_point(&mut r))));
+                                    },
+                                    _ => parts.r1[0] ^= 1,
+                                }
                                 if let Ok(q) = G::from_bytes(&parts.to_bytes()) {
                                     p = q;
                                 }
@@ -279,6 +331,19 @@ fn run<G: Group>(sc: &Scenario, st: &mut RunStats) -> Vec<Violation> {
     st.fault("second_interleaving");
     for c in 0..sc.clients.len() {
         for k in 0..sc.clients[c].len() {
+            if ra[c][k].contains("retry_equals_plain:false") {
+                out.push(Violation::new(
+                    "failed_call_left_state_behind",
+                    "prove",
+                    format!(
+                        "client {} op {} ({}): after a proving attempt that returned an error, the honest attempt on the same transcript object gives a different proof than on an untouched transcript — the failed call left state behind in the caller's transcript",
+                        c,
+                        k,
+                        short(&sc.clients[c][k])
+                    ),
+                ));
+                return out;
+            }
             if rb[c][k].contains(" / repeat: ") {
                 out.push(Violation::new(
                     "repeating_a_call_changes_its_result",
@@ -312,6 +377,7 @@ fn op_kind(op: &Op) -> String {
         Op::Construct { .. } => "construct",
         Op::Prove(_) => "prove",
         Op::Verify { .. } => "verify",
+        Op::ProveAfterFailedAttempt(_) => "prove_after_failed_attempt",
         Op::Codec(_) => "codec",
         Op::DropClones => "drop",
     }
@@ -421,7 +487,13 @@ impl Check for C18 {
                     1 => Op::DropClones,
                     2 | 3 | 4 => Op::Prove(pd(rng)),
                     5 => Op::Prove(gen_prove(rng, max_full, true)),
-                    6 => Op::Codec(pd(rng)),
+                    6 => {
+                        if rng.chance(1, 2) {
+                            Op::Codec(pd(rng))
+                        } else {
+                            Op::ProveAfterFailedAttempt(pd(rng))
+                        }
+                    },
                     _ => {
                         let first = pd(rng);
                         let k = rng.range(1, 4) as usize;
@@ -438,8 +510,8 @@ impl Check for C18 {
                             d.wit = WitnessSpec::generate(rng, &d.cfg, true);
                             members.push(d);
                         }
-                        let corrupt = if rng.chance(1, 4) { Some(rng.usize_below(k)) } else { None };
-                        Op::Verify { members, action: rng.usize_below(3), corrupt }
+                        let corrupt = if rng.chance(1, 3) { Some(rng.usize_below(k)) } else { None };
+                        Op::Verify { members, action: rng.usize_below(3), corrupt, corrupt_kind: rng.below(3) as u8 }
                     },
                 });
             }
@@ -468,7 +540,7 @@ impl Check for C18 {
                                 let k = rng.range(1, 3) as usize;
                                 let members: Vec<ProveDesc> = (0..k).map(|_| mk(rng)).collect();
                                 let corrupt = if rng.chance(1, 5) { Some(rng.usize_below(k)) } else { None };
-                                Op::Verify { members, action: rng.usize_below(3), corrupt }
+                                Op::Verify { members, action: rng.usize_below(3), corrupt, corrupt_kind: rng.below(3) as u8 }
                             },
                         })
                         .collect()
